@@ -17,7 +17,7 @@ MANIFEST = dict(
          "`self.changes = []` reset, the for-else clear, ack-before-parse, counter kind), so removing the reset or changing a slice changes the Lean term. "
          "Tie: translator facts + differential correspondence of the real long-lived handler objects (async via the real consume task on the virtual loop; "
          "threaded via stepped dispatch on a real GeckoSpa) + a sequential reference block kept by the harness (search)."
-         ' Since session 3: partial updates carry overlapping neighbour records (p, p+-1, p). Session 4: histories contain partial updates that arrive while a request holds the protocol lock (busy windows): application stays in arrival order and every update is acknowledged. The acknowledging handler and the apply callback of the awaitable client have no suspension point (partial_update_never_suspends over the regenerated skeletons; no_suspension_no_aw: every trace is one atomic block). Histories with a byte-identical report repeated after a refresh overwrote its positions; partial_update_path_state_inventory. Real refresh exchanges on the wire with a partial update queued just ahead of the answer, at several phases of the two pollers. Session 5: connected clients (the items of a pack\'s tables built over the block and watched, as a facade does) with partial updates and refreshes that put unusual stored values under them (an enumeration\'s byte at / around its label count, 255, first record of several); an exception of the implementation during a refresh is an observation with a failing input. The threaded rig\'s partial updates arrive as framed datagrams in a fake OS socket that truncates to the reader\'s buffer and are read by the engine\'s own receive step; maximal messages (255 records) in the corpus; largest_partial_update_fits_the_receive_buffer over the regenerated recvBufferSize.',
+         ' Since session 3: partial updates carry overlapping neighbour records (p, p+-1, p). Session 4: histories contain partial updates that arrive while a request holds the protocol lock (busy windows): application stays in arrival order and every update is acknowledged. The acknowledging handler and the apply callback of the awaitable client have no suspension point (partial_update_never_suspends over the regenerated skeletons; no_suspension_no_aw: every trace is one atomic block). Histories with a byte-identical report repeated after a refresh overwrote its positions; partial_update_path_state_inventory. Real refresh exchanges on the wire with a partial update queued just ahead of the answer, at several phases of the two pollers. Session 5: connected clients (the items of a pack\'s tables built over the block and watched, as a facade does) with partial updates and refreshes that put unusual stored values under them (an enumeration\'s byte at / around its label count, 255, first record of several); an exception of the implementation during a refresh is an observation with a failing input. The threaded rig\'s partial updates arrive as framed datagrams in a fake OS socket that truncates to the reader\'s buffer and are read by the engine\'s own receive step; maximal messages (255 records) in the corpus; largest_partial_update_fits_the_receive_buffer over the regenerated recvBufferSize. One message for every record count 0..255; count_follows_the_verb over the regenerated verbSkip facts (the translator admits only `received_bytes[<constant>:]`).',
     note="Trusted: Lean kernel, translator, correspondence harness. asyncio: no other task runs between async_handle and async_handled (neither suspends). "
          "Malformed STATP bodies (short records) and observers that raise inside the threaded callback are outside the property's quantifier and the model. "
          "A STATQ arriving at the client is outside the quantifier too (the async handler would then re-apply its last change list).",
@@ -420,6 +420,9 @@ def run(ctx):
         [("statp", [(7, b"\x01\x02")]), ("statp", [((4 * i) % 1020, bytes([i, 255 - i])) for i in range(255)]), ("statp", [(9, b"\x03\x04")]),
          ("statp", [((4 * i + 2) % 1020, bytes([255 - i, i])) for i in range(254)]), ("refresh", 0, bytes(range(200))),
          ("statp", [((4 * i + 1) % 1020, bytes([i, i])) for i in range(230)]), ("statp", [((4 * i) % 1020, bytes([i ^ 0x55, i])) for i in range(200)])],
+        # EVERY record count 0..255 once (the count byte follows the verb directly: a decoder that takes the verb off by its letters
+        # instead of its length goes wrong exactly for the counts that are one of those letters)
+        [("statp", [((7 * n + 4 * i) % 1020, bytes([(n + i) & 255, (3 * n) & 255])) for i in range(n)]) for n in range(256)],
     ]
     hists = corpus + [gen_history(rng, rng.randrange(2, 12 if ctx.quick else 40)) for _ in range(nh)]
     # connected clients: the items of a pack's tables are built over the block and watched (as a facade does)
